@@ -438,8 +438,9 @@ let op_normalize_m f =
     let tail = fault_tail f !pos reqs st n0 in
     let st = with_plan st NoFault in
     let rc = int_of_n rc in
-    let body = if rc = 0 then Printf.sprintf "normalize 0 %d %s%s %d prov=%s" before (string_of_muri v) (text_tag (erase v)) (int_of_n (mask_required (erase v))) (prov_of_muri v)
-               else Printf.sprintf "normalize %d %d E" rc before in
+    let body = if rc = 0 then Printf.sprintf "normalize 0 %d %s%s %d prov=%s in=1%s" before (string_of_muri v) (text_tag (erase v)) (int_of_n (mask_required (erase v))) (prov_of_muri v)
+                                   (if mask <> 0 then " again" ^ text_tag (erase v) else "")
+               else Printf.sprintf "normalize %d %d E in=1" rc before in
     let st = free2 v st in
     Printf.sprintf "%s ro=1 live=%d bad=%d%s" body (int_of_nat (live_count st)) (int_of_nat (bad_frees st)) tail
 
@@ -455,7 +456,7 @@ let op_makeowner_m f =
     let tail = fault_tail f !pos reqs st n0 in
     let st = with_plan st NoFault in
     let rc = int_of_n rc in
-    let body = if rc = 0 then Printf.sprintf "makeowner 0 %s%s prov=%s again%s" (string_of_muri v) (text_tag (erase v)) (prov_of_muri v) (text_tag (erase v))
+    let body = if rc = 0 then Printf.sprintf "makeowner 0 %s%s prov=%s in=1 again%s" (string_of_muri v) (text_tag (erase v)) (prov_of_muri v) (text_tag (erase v))
                else Printf.sprintf "makeowner %d E" rc in
     let st = free2 v st in
     Printf.sprintf "%s live=%d bad=%d%s" body (int_of_nat (live_count st)) (int_of_nat (bad_frees st)) tail
